@@ -276,7 +276,11 @@ func indexCase(m *Model, rep *Report, r *Rng, dir string, es []idxEntry, seed ui
 					tagEnts = append(tagEnts, em)
 				}
 			}
-			sort.SliceStable(tags, func(i, j int) bool { a, _ := semver.NewVersion(tags[i]); b, _ := semver.NewVersion(tags[j]); return a.Compare(b) > 0 })
+			sort.SliceStable(tags, func(i, j int) bool {
+				a, _ := semver.NewVersion(tags[i])
+				b, _ := semver.NewVersion(tags[j])
+				return a.Compare(b) > 0
+			})
 			var tag string
 			var terr error
 			tp := safely(func() { tag, terr = registry.GetTagMatchingVersionOrConstraint(tags, query) })
